@@ -30,6 +30,7 @@ JOURNAL = """2024-01-05 'one
 """
 PRICES = "P 2024-01-01 ACME 2 EUR\nP 2024-02-01 ACME 3 EUR\nP 2024-01-01 USD 0.9 EUR\n"
 ACCOUNTS = 'accounts = [ "a", "a:b", "e:c", "x", "Equity:Balance" ]\n'
+ACCOUNTS_NO_EQ = 'accounts = [ "a", "a:b", "e:c", "x" ]\n'
 COMMS = 'permit-empty-commodity = true\ncommodities = [ "ACME", "EUR", "USD" ]\n'
 TAGS = 'tags = [ ]\n'
 
@@ -40,7 +41,7 @@ def rand_file(r):
             "accounts": r.choice([None, None] + SELS), "bal": r.choice([None, None] + SELS), "balgrp": r.choice([None, None] + SELS),
             "reg": r.choice([None, None] + SELS), "eq": r.choice([None, None] + SELS),
             "commodity": r.choice([None, "EUR", "EUR", "USD"]), "lookup": r.choice([0, 0, 1, 2]), "db": r.random() < 0.7,
-            "group_by": r.randrange(5)}
+            "group_by": r.randrange(5), "eq_declared": r.random() < 0.6}
 
 
 def rand_cli(r, p=0.35):
@@ -136,10 +137,11 @@ def g_strs(l):
 
 def g_file(f):
     o = lambda v: "None" if v is None else "(Some %s)" % g_strs(v)
-    return "(mkFile %s %s %s %s %s %s %s %s %s %s %s %s %s)" % (
+    return "(mkFile %s %s %s %s %s %s %s %s %s %s %s %s %s %s)" % (
         g_bool(f["strict"]), g_bool(f["audit"]), g_list([g_N(REPORTS.index(x)) for x in f["reports"]]),
         g_list([g_N(EXPORTS.index(x)) for x in f["exports"]]), o(f["accounts"]), o(f["bal"]), o(f["balgrp"]), o(f["reg"]), o(f["eq"]),
-        g_opt(f["commodity"], g_str), g_N(f["lookup"]), ("(Some %s)" % g_str("f")) if f["db"] else "None", g_N(f["group_by"]))
+        g_opt(f["commodity"], g_str), g_N(f["lookup"]), ("(Some %s)" % g_str("f")) if f["db"] else "None", g_N(f["group_by"]),
+        g_bool(f.get("eq_declared", True)))
 
 
 def g_cli(c):
@@ -166,7 +168,7 @@ def write_world(base, f):
     os.makedirs(os.path.join(base, "txns"))
     open(os.path.join(base, "txns", "j.txn"), "w").write(JOURNAL)
     open(os.path.join(base, "tackler.toml"), "w").write(toml_of(f))
-    open(os.path.join(base, "accounts.toml"), "w").write(ACCOUNTS)
+    open(os.path.join(base, "accounts.toml"), "w").write(ACCOUNTS if f.get("eq_declared", True) else ACCOUNTS_NO_EQ)
     open(os.path.join(base, "commodities.toml"), "w").write(COMMS)
     open(os.path.join(base, "tags.toml"), "w").write(TAGS)
     open(os.path.join(base, "prices.db"), "w").write(PRICES)
@@ -248,7 +250,8 @@ def main(run):
     # ---- (a) Settings::try_from through the harness vs the model
     reqs = []
     for f, c in pairs:
-        reqs.append({"conf": {"toml": toml_of(f), "accounts": ACCOUNTS, "commodities": COMMS, "tags": TAGS, "pricedb": PRICES},
+        reqs.append({"conf": {"toml": toml_of(f), "accounts": ACCOUNTS if f.get("eq_declared", True) else ACCOUNTS_NO_EQ,
+                              "commodities": COMMS, "tags": TAGS, "pricedb": PRICES},
                      "overlaps": overlaps_of(c), "inputs": [{"text": JOURNAL}], "ops": [{"op": "settings"}]})
     # prices2.db must exist for db_path overlaps: the harness writes only prices.db -> reuse it
     for rq in reqs:
